@@ -436,7 +436,8 @@ def cdf_long_cases(draw):
 @st.composite
 def newmark_long_cases(draw):
     c = draw(newmark_cases())
-    c.update(nt=draw(st.sampled_from(LONG_NT)), n=min(c["n"], 3), reuse=False, nonlin=c["nonlin"][:1])
+    # (linear only: thousands of steps through a gap / cubic spring amplify round-off without bound)
+    c.update(nt=draw(st.sampled_from(LONG_NT)), n=min(c["n"], 3), reuse=False, nonlin=[])
     return c
 
 
